@@ -137,6 +137,7 @@ func rulesC03(c *Ctx) {
 	// iterator: a subtree that lies entirely above the seek key is not skipped into
 	rulesC03Iter(c)
 	rulesC03Round3(c)
+	c03NilKey(c)
 	// every dereference refreshes the pointer's LRU position before anything is fetched (and therefore before anything
 	// can be evicted): the nodes on the path being traversed are the most recently used ones and are evicted last
 	if fn := c.needFn("C03.evict", "storage/mkvs.(*cache).derefNodePtr"); fn != nil {
@@ -153,54 +154,8 @@ func rulesC03(c *Ctx) {
 		ok = ok && len(rets) > 0 && Reach(fn, nil, nil, anyOf(rets), NewCut().AddInstr(use.Ins...)) == nil
 		c.Check(ok, "C03.evict", fname(fn)+":useNode(ptr) before any fetch and before the node is handed out", c.P.Pos(fn.Pos()), "the LRU position of a dereferenced pointer is refreshed first", "derefNodePtr no longer refreshes the LRU position of the pointer before fetching/returning: ancestors on the path being traversed can become the eviction candidates while they are in use")
 	}
-	// a node that derefNodePtr itself drops from the cache must be obtained again or an error returned; it must never
-	// be answered as "empty subtree" (nil, nil): that silently deletes everything below it (F15)
-	if fn := c.needFn("C03.evict", "storage/mkvs.(*cache).derefNodePtr"); fn != nil {
-		drops := CallsTo(fn, "c.removeNode(ptr)", "storage/mkvs.(*cache).removeNode", "")
-		var empties []ssa.Instruction
-		for _, r := range Returns(fn) {
-			if len(r.Results) == 2 && isNilConst(r.Results[0]) && isNilConst(r.Results[1]) {
-				empties = append(empties, r)
-			}
-		}
-		ok := len(empties) > 0
-		var at ssa.Instruction
-		for _, d := range drops.Ins {
-			if hit := Reach(fn, d, nil, anyOf(empties), nil); hit != nil {
-				ok, at = false, hit
-			}
-		}
-		site := c.P.Pos(fn.Pos())
-		if at != nil {
-			site = c.P.InstrPos(at)
-		}
-		c.Check(ok, "C03.evict", fname(fn)+":a dropped node is re-fetched or an error, never 'empty'", site, "after dropping a cached node every exit re-fetches it or reports an error", "after dropping a cached node (an internal node whose embedded leaf was evicted) derefNodePtr can answer (nil, nil) when the pointer is not clean: a locally modified subtree reads as empty and is lost at the next commit")
-	}
-
-	// making room for a node fetched during a traversal must not evict the nodes the traversal holds (the fetched node's
-	// ancestors): in derefNodePtr every path that commits a fetched node into the cache passes the pointer being
-	// dereferenced as the locked pointer (the remote path does; the local node database path does not — F24)
-	if fn := c.needFn("C03.evict", "storage/mkvs.(*cache).derefNodePtr"); fn != nil {
-		bad := ""
-		n := 0
-		for _, call := range callsIn(fn) {
-			switch calleeName(call) {
-			case "storage/mkvs.(*cache).commitNode":
-				n++
-				bad = c.P.InstrPos(call)
-			case "storage/mkvs.(*cache).tryCommitNode":
-				n++
-				if args := allArgs(call); len(args) < 3 || isNilConst(args[2]) {
-					bad = c.P.InstrPos(call)
-				}
-			}
-		}
-		site := c.P.Pos(fn.Pos())
-		if bad != "" {
-			site = bad
-		}
-		c.Check(n > 0 && bad == "", "C03.evict", fname(fn)+":a fetched node is cached without evicting the path that leads to it", site, "every commit of a fetched node into the cache locks the pointer being dereferenced", "derefNodePtr caches a node fetched from the local node database with no locked pointer: when the node capacity is smaller than a root-to-leaf path, making room evicts the least recently used node — an ancestor the operation in progress still holds — and the whole cached tree above the fetched node is dismantled under the operation; the pending root ends up a dirty pointer without a node and the next commit returns a wrong root")
-	}
+	c03EvictRepaired(c)
+	childNodeReadRule(c, "C03.evict")
 
 	// ---- (b) transaction-context discipline
 	nTx := 0
